@@ -409,3 +409,54 @@ func TestVerifRoundTripInterfaces(t *testing.T) {
 		}
 	}
 }
+
+type rtPtrOut struct {
+	Struct
+	A int
+	B string `argmapper:",typeOnly"`
+}
+
+// TestVerifRoundTripPointerStruct: a function may return its result struct by
+// value, by pointer or as a nil pointer (the call machinery accepts all three);
+// loading the Result into the function's output set must give the same values.
+func TestVerifRoundTripPointerStruct(t *testing.T) {
+	cases := []struct {
+		name string
+		fn   interface{}
+		a    int
+		b    string
+	}{
+		{"func() struct", func() rtPtrOut { return rtPtrOut{A: 5, B: "x"} }, 5, "x"},
+		{"func() *struct", func() *rtPtrOut { return &rtPtrOut{A: 5, B: "x"} }, 5, "x"},
+		{"func() (*struct)(nil)", func() *rtPtrOut { return nil }, 0, ""},
+		{"func() (*struct, error)", func() (*rtPtrOut, error) { return &rtPtrOut{A: 7, B: "y"}, nil }, 7, "y"},
+	}
+	for _, c := range cases {
+		func() {
+			defer func() {
+				if r := recover(); r != nil {
+					t.Errorf("FAILING-INPUT roundtrip FromResult of %s panicked: %v", c.name, r)
+				}
+			}()
+			f, err := NewFunc(c.fn)
+			if err != nil {
+				t.Errorf("FAILING-INPUT roundtrip %s: NewFunc failed: %v", c.name, err)
+				return
+			}
+			r := f.Call(Logger(hclog.NewNullLogger()))
+			if r.Err() != nil {
+				t.Errorf("FAILING-INPUT roundtrip %s: call failed: %v", c.name, r.Err())
+				return
+			}
+			out := f.Output()
+			if err := out.FromResult(r); err != nil {
+				t.Errorf("FAILING-INPUT roundtrip %s: FromResult failed: %v", c.name, err)
+				return
+			}
+			a, b := out.Named("a"), out.Typed(reflect.TypeOf(""))
+			if a == nil || b == nil || !a.Value.IsValid() || !b.Value.IsValid() || a.Value.Interface() != c.a || b.Value.Interface() != c.b {
+				t.Errorf("FAILING-INPUT roundtrip %s: FromResult did not load the returned values", c.name)
+			}
+		}()
+	}
+}
